@@ -417,17 +417,17 @@ theorem closed_is_final (s s' : State) (e : Event) (hc : s.closed = true) (h : s
     · split at h <;> (simp at h; subst h; simp [hc])
   · split at h
     · split at h
-      · simp at h; subst h; exact hc
+      · simp at h; subst h; first | exact hc | rfl
       · cases h
     · cases h
   · split at h
     · split at h
-      · simp at h; subst h; exact hc
+      · simp at h; subst h; first | exact hc | rfl
       · cases h
     · cases h
   · split at h
     · split at h
-      · simp at h; subst h; exact hc
+      · simp at h; subst h; first | exact hc | rfl
       · cases h
     · cases h
   · split at h
@@ -446,7 +446,7 @@ example : (run [⟨2, 20⟩, ⟨1, 10⟩] [.write 10 true 1, .write 20 true 2, .
     some (some ⟨10, .done (.resp 1 ⟨1, 10⟩)⟩, some ⟨20, .done (.resp 0 ⟨2, 20⟩)⟩) := by decide
 
 example : (run [⟨7, 70⟩] [.write 10 true 1, .lone 1 7]).map (fun s => (s.calls 1, s.closed, s.stream)) =
-    some (some ⟨10, .done .err⟩, false, [⟨7, 70⟩]) := by decide
+    some (some ⟨10, .done .err⟩, true, [⟨7, 70⟩]) := by decide
 
 /-! ### with a truthful broker nobody is stranded in waitResponse
 
@@ -604,41 +604,11 @@ theorem noFailure_step {stream0 : List Frame} (ht : Truthful stream0) {s s' : St
         · cases h
       · cases h
     | lone seq seen =>
-      -- unreachable on an open conn: the head answers a written request j ≠ seq; j is not waiting (seq is alone),
-      -- has not failed (NoFailure), so it already holds a frame with that id — the broker answered twice
+      -- `lone` closes the conn (since /repo bb4e500): nothing to show for an open conn
       simp only [step] at h
       split at h
-      · next f rest hl hst hs =>
-        split at h
-        · rename_i hcond
-          simp only [Option.some.injEq] at h; subst h
-          intro hcl
-          exfalso
-          have hcl : s.closed = false := hcl
-          obtain ⟨hseen, hne, halone⟩ := hcond
-          simp only [causal, hs, List.any_eq_true, Bool.and_eq_true, decide_eq_true_eq, beq_iff_eq, List.mem_range] at hcau
-          obtain ⟨j, hjr, hj1, hjid⟩ := hcau
-          have hjs : j ≠ seq := by
-            intro heq; subst heq; rw [hseen] at hjid; exact hne hjid
-          simp only [aloneWaiting, List.all_eq_true, List.mem_range, Bool.or_eq_true, beq_iff_eq, bne_iff_ne, ne_eq] at halone
-          rcases halone j hjr with hja | hja
-          · exact hjs hja
-          · cases hcj : s.calls j with
-            | none =>
-              have := htot j hj1 (by omega)
-              rw [hcj] at this; cases this
-            | some c =>
-              have hnw : c.st ≠ .waiting := by
-                intro hw; apply hja; simp [statusOf, hcj, hw]
-              have hne2 := hn hcl j c hcj
-              cases hst2 : c.st with
-              | waiting => exact hnw hst2
-              | reading p g => exact head_not_taken ht hi hs hcj (by rw [hst2]; rfl) hjid
-              | done r =>
-                cases r with
-                | err => exact hne2 hst2
-                | resp p g => exact head_not_taken ht hi hs hcj (by rw [hst2]; rfl) hjid
-                | kafkaErr p g => exact head_not_taken ht hi hs hcj (by rw [hst2]; rfl) hjid
+      · split at h
+        · simp only [Option.some.injEq] at h; subst h; intro hcl; simp at hcl
         · cases h
       · cases h
     | peekErr seq =>
@@ -671,6 +641,48 @@ theorem noFailure_step {stream0 : List Frame} (ht : Truthful stream0) {s s' : St
     | close => simp only [step, Option.some.injEq] at h; subst h; intro hcl; simp at hcl
   · cases h
 
+/-- with a truthful broker `io.ErrNoProgress` cannot happen on an open conn: the head answers a written request
+j ≠ seq; j is not waiting (seq is alone) and has not failed, so it already holds a frame with that id — the broker
+would have answered twice -/
+theorem lone_disabled {stream0 : List Frame} (ht : Truthful stream0) {s : State} (hi : Inv stream0 s) (htot : Total s)
+    (hn : NoFailure s) (hcl : s.closed = false) (seq seen : Nat) (hcau : causal s (.lone seq seen) = true) :
+    step s (.lone seq seen) = none := by
+  cases h : step s (.lone seq seen) with
+  | none => rfl
+  | some s' =>
+    exfalso
+    simp only [step] at h
+    split at h
+    · next f rest hl hst hs =>
+      split at h
+      · rename_i hcond
+        obtain ⟨hseen, hne, halone⟩ := hcond
+        simp only [causal, hs, List.any_eq_true, Bool.and_eq_true, decide_eq_true_eq, beq_iff_eq, List.mem_range] at hcau
+        obtain ⟨j, hjr, hj1, hjid⟩ := hcau
+        have hjs : j ≠ seq := by
+          intro heq; subst heq; rw [hseen] at hjid; exact hne hjid
+        simp only [aloneWaiting, List.all_eq_true, List.mem_range, Bool.or_eq_true, beq_iff_eq, bne_iff_ne, ne_eq] at halone
+        rcases halone j hjr with hja | hja
+        · exact hjs hja
+        · cases hcj : s.calls j with
+          | none =>
+            have := htot j hj1 (by omega)
+            rw [hcj] at this; cases this
+          | some c =>
+            have hnw : c.st ≠ .waiting := by
+              intro hw; apply hja; simp [statusOf, hcj, hw]
+            have hne2 := hn hcl j c hcj
+            cases hst2 : c.st with
+            | waiting => exact hnw hst2
+            | reading p g => exact head_not_taken ht hi hs hcj (by rw [hst2]; rfl) hjid
+            | done r =>
+              cases r with
+              | err => exact hne2 hst2
+              | resp p g => exact head_not_taken ht hi hs hcj (by rw [hst2]; rfl) hjid
+              | kafkaErr p g => exact head_not_taken ht hi hs hcj (by rw [hst2]; rfl) hjid
+      · cases h
+    · cases h
+
 theorem stepC_step {s s' : State} {e : Event} (h : stepC s e = some s') : step s e = some s' := by
   unfold stepC at h; split at h
   · exact h
@@ -691,18 +703,19 @@ theorem truthful_run {stream0 : List Frame} (ht : Truthful stream0) : ∀ (es : 
 
 /-- **truthful_broker_never_strands_waiters.**  If the broker answers only written requests and none of them
 twice (it may still reorder and delay as it likes), then in every reachable state of an open conn:
-(1) no call has failed — in particular `io.ErrNoProgress` has not happened and cannot;
+(1) no call has failed; (3) `io.ErrNoProgress` cannot happen (`lone` is not enabled);
 (2) whenever the read lock is free, the frame at the head of the stream belongs to a caller that is waiting for
     it, so that caller's `take` is enabled: the yield loop of `waitResponse` always has somebody to yield to. -/
 theorem truthful_broker_never_strands_waiters (stream0 : List Frame) (ht : Truthful stream0)
     (es : List Event) (s : State) (h : runFromC (init stream0) es = some s) (hopen : s.closed = false) :
     (∀ i c, s.calls i = some c → c.st ≠ .done .err) ∧
     (s.rlock = none → ∀ f rest, s.stream = f :: rest → ∀ j, 1 ≤ j → j ≤ s.nextSeq → f.id = wire j →
-      (step s (.take j)).isSome = true) := by
+      (step s (.take j)).isSome = true) ∧
+    (∀ seq seen, causal s (.lone seq seen) = true → step s (.lone seq seen) = none) := by
   have h0t : Total (init stream0) := by intro i h1 h2; simp [init] at h2; omega
   have h0n : NoFailure (init stream0) := by intro _ i c hc; simp [init] at hc
   obtain ⟨hi, htot, hn⟩ := truthful_run ht es (init stream0) s (inv_init stream0) h0t h0n h
-  refine ⟨hn hopen, ?_⟩
+  refine ⟨hn hopen, ?_, fun seq seen hc => lone_disabled ht hi htot hn hopen seq seen hc⟩
   intro hl f rest hs j hj1 hjn hid
   cases hcj : s.calls j with
   | none => have := htot j hj1 hjn; rw [hcj] at this; cases this
@@ -1194,9 +1207,10 @@ def waitResponseModelRow (sc : List String) : List String :=
     | none => ["model: event not enabled"]
     | some s1 =>
       let st := statusOf s1 1
-      ["lock", "peek"] ++ (if s1.closed then ["close"] else []) ++
+      ["lock", "peek"] ++
       (match st with | some (.reading _ _) => ["skip"] | _ => []) ++
-      (if st == some (.done .err) && !s1.closed then ["noProgress"] else []) ++
+      (if st == some (.done .err) && !pf then ["noProgress"] else []) ++
+      (if s1.closed then ["close"] else []) ++
       (if s1.rlock.isNone then ["unlock"] else []) ++
       (if st == some .waiting then ["loop"] else []) ++ ["leave"]
 
